@@ -440,6 +440,20 @@ def afm(pm: ProgramModel, ctx: Ctx, mb: ModelBuilder) -> None:
             doc = f"%Relationships\nR: [A] [B] [C];\n%Attributes\n%Constraints\n{text};\n"
             r = read(pm, "AFMReader", doc)
             compare(ctx, "C09-AFM", f"constraint:{text}", where, r, refm, f"AFM constraint `{text}`")
+        # names that differ only in letter case are different features: each owns its own children and attributes
+        rc = mb.feature("R")
+        ab, AB = mb.feature("Ab"), mb.feature("AB")
+        mb.relation(rc, [ab], 1, 1)
+        mb.relation(rc, [AB], 0, 1)
+        mb.relation(ab, [mb.feature("X1")], 1, 1)
+        mb.relation(AB, [mb.feature("Y1"), mb.feature("Y2")], 1, 1)
+        AB._f["attributes"].append(mb.attribute("cost", "5", AB, domain=AObj(
+            "Domain", range_list=[AObj("Range", min_value=0, max_value=10)], element_list=[]), null="0"))
+        doc = ("%Relationships\nR: Ab [AB];\nAb: X1;\nAB: [1,1]{Y1 Y2};\n%Attributes\nAB.cost: Integer[0 to 10],5,0;\n"
+               "%Constraints\n")
+        r = read(pm, "AFMReader", doc)
+        compare(ctx, "C09-AFM", "names-differing-in-case", where, r, mb.model(rc, []),
+                "AFM document with features Ab and AB, each with children of its own")
         # attributes as written
         doc = ("%Relationships\nR: A;\n%Attributes\nA.cost: Integer[0 to 10],5,0;\nA.level: [low,high],low,high;\n"
                "%Constraints\n")
